@@ -965,6 +965,9 @@ mutant('P2-facade-sstore-swaps-key-and-value', ['C11'], [
 mutant('P2-facade-set-balance-writes-zero', ['C11'], [
     ('src/precompile.rs', "            Ok(load) => return Ok(load.map(|mut account| account.set_balance(balance))),", "            Ok(load) => return Ok(load.map(|mut account| account.set_balance(U256::ZERO.min(balance)))),"),
 ], ['|P2|'])
+mutant('N8-next-does-not-validate-executed-claims', ['C05', 'C02'], [
+    (S, "                    TransactionStatus::Executed | TransactionStatus::Unconfirmed => {", "                    TransactionStatus::Unconfirmed => {"),
+], ['|N8|'])
 mutant('LC5-validate-stale-test-inverted', ['C05'], [(S, """        if tx_state.incarnation != incarnation {
             self.abort(AbortReason::ParallelError {
                 txid,
